@@ -107,9 +107,9 @@ def r3(ctx):
     upd = [(bi, t, term) for bi, t, term in b.real_calls() if term[1].endswith("::update_pnl_unrealised")]
     ctx.floor("update_pnl_unrealised call sites in Position::update_from_trade", len(upd), 4)
     eff = common.effects(b, lambda p: p[0] == "proj" and p[1][0] == "param" and p[1][2] == "self" and p[2][0] in FIELDS)
-    # self-mutating helper calls (update_price_entry_average(&mut self, ..)) count as writes too
+    # self-mutating helper calls that were not inlined (`&mut self` helpers writing the entry price) count as writes too
     helper = [(bi, t, term) for bi, t, term in b.real_calls()
-              if term[1].endswith(("::update_price_entry_average",)) and b.mut_args(t)]
+              if term[1].rsplit("::", 1)[-1].startswith("update_price") and b.mut_args(t)]
     for bi, t, term in upd:
         ctx.check("Position::update_from_trade@%s" % _arm(b, bi), render(term[2][1]) == "trade.price" and render(term[2][0]) == "self",
                   "after a fill the estimate is evaluated at the fill price", sites=[t["sp"]], got=render(term), key="arg")
